@@ -81,6 +81,11 @@ let exec toks =
           s_res s_n vv;
           s_res (fun x -> s_hr (hr_from x)) vv ] in
       String.concat " " (if n = 5 then base @ [ s_res s_n (evaluate_five_cards c ws) ] else base)
+  | "hrank" ->
+      let ws = List.tl (nums ()) in
+      String.concat " "
+        [ s_res (fun x -> s_hr (hr_from x)) (hand_rank_value c ws);
+          s_res (fun x -> s_hr (hr_from x)) (hand_rank_value_validated c ws) ]
   | "rankv" ->
       let v = nums () in
       let n = int_of_n (List.hd v) in
